@@ -247,6 +247,7 @@ structure Eval where
   ctx : ClientCtx
   resp : Response
   hellos : List ServerHello      -- every ServerHello-type message the server sent, in order
+  cfgObserved : Nat × Nat        -- implementation: Config.MinVersion / MaxVersion after the build
   model : Outcome
   completed : Bool               -- implementation: Handshake returned nil
   state : Option Report          -- implementation: reported ConnectionState
@@ -288,6 +289,19 @@ def parseCase (impl : Impl) (c : Case) : Parsed :=
         let a ← a.toNat?
         pure (a, b == "1")
       | _ => none)
+    -- the Config range is *predicted* from the declared spec by the model's SetTLSVers (it must not
+    -- depend on what the Config held before); the observed range is compared in `diff`
+    let (specMin, specMax) ← (match listOf (c.output.getD "spec" "") with
+      | [a, b] => do
+        let a ← hex16? a
+        let b ← hex16? b
+        pure (a, b)
+      | _ => none)
+    let specExts ← (listOf (c.output.getD "specexts" "-")).mapM fun e =>
+      if e == "e" then some [] else (e.splitOn ".").mapM hex16?
+    let (mMin, mMax) ← (match setTLSVers specMin specMax specExts with
+      | .ok p => some p
+      | .error _ => none)
     let pskSuite := hex16? (c.output.getD "psks" "-")
     let recv ← hex16? (c.output.getD "recv" "")
     let eeAlpn ← (match c.output.getD "ee" "-" with
@@ -298,11 +312,12 @@ def parseCase (impl : Impl) (c : Case) : Parsed :=
     let state ← (match c.output.getD "state" "-" with
       | "-" => some none
       | s => (parseState s).map some)
-    let ctx : ClientCtx := { cfgMin := cfgMin, cfgMax := cfgMax, ech := ech, ecdheGroup := ecdhe,
-                             hybridKeys := hybrid, pskSuite := pskSuite }
+    let ctx : ClientCtx := ctxOfVers mMin mMax ech
+      { cfgMin := cfgMin, cfgMax := cfgMax, ech := ech, ecdheGroup := ecdhe, hybridKeys := hybrid, pskSuite := pskSuite }
     let resp : Response := { hello1 := h1, hello2 := h2, recVersion := recv, eeAlpn := eeAlpn, cert := cert,
                              skxCurve := skx, restOk := true }
     pure { mode := mode, offer := offer, ctx := ctx, resp := resp, hellos := hellos,
+           cfgObserved := (cfgMin, cfgMax),
            model := clientStep impl offer ctx resp,
            completed := completed, state := state, app := c.output.getD "app" "0" == "1",
            calert := c.output.getD "calert" "-", salert := c.output.getD "salert" "-",
@@ -325,6 +340,9 @@ def outcomeTag : Outcome → String
 
 /-- model vs implementation: `none` = they agree, `some msg` = the model predicts something else. -/
 def diff (e : Eval) : Option String :=
+  if !e.ctx.ech && e.cfgObserved != (e.ctx.cfgMin, e.ctx.cfgMax) then
+    some s!"cfg={e.ctx.cfgMin},{e.ctx.cfgMax} (SetTLSVers result must depend on the spec only)"
+  else
   match e.model with
   | .accept st =>
     if e.completed && e.app && e.state == some (report st) then none
